@@ -54,7 +54,9 @@ theorem commitWithAccounts_sem (k : Nat) (env : Env) (henv : env.ctes = []) (b l
       (acAbs (latestView s.w s.xid) rowsC').Perm
         (((am.map (·.2)).filter (fun d => !hasAccount l (acAbs (latestView s.w s.xid) rowsC) d.address)).map (insRow l) ++
           (acAbs (latestView s.w s.xid) rowsC).map (updOf l (am.map (·.2)))) ∧
-      AcInv (latestView s.w s.xid) (nrC + nC) rowsC' :=
+      AcInv (latestView s.w s.xid) (nrC + nC) rowsC' ∧
+      seqs'.find? (·.name == mvSeqFull b) = some { sqM with last := sqM.next + pm.length - 1, called := true } ∧
+      seqs'.find? (·.name == fullT) = some { sqT with last := sqT.next, called := true } :=
   exec_commit4 k env henv b l id rsA nrA trigsT nrT rowsT fullT sqT trigsM B1 B2 trB A1 A2 trA item wher dflt_ fB setE whereU fA nrM rowsM sqM
     trigsC nrC rowsC s hst hac vrows hvne hvnd av hwf habs L hl x hlit hid href pm hne hlits hsf hrange hnc T hT am halits hand
 
